@@ -1052,6 +1052,29 @@ Proof.
     repeat (destruct Ho as [<-|Ho]; [cbn [op_loc In]; tauto|]). destruct Ho.
 Qed.
 
+(* the same program at the path level, through the real solidity decoder and the code's guard:
+   whatever interpretation of the array terms satisfies the path the run leaves, the returned
+   terms evaluate to the EVM's answers *)
+Definition ops_ex : list (op Z) :=
+  [OStore (Add [K h2; V 1]) 7; OStore (K 0) 8; OLoad (Add [V 1; Sha256 (K 2)]);
+   OStore (Add [Sha512 (V 0) (K 1); K 1]) 9; OLoad (K 0); OLoad (Add [K h2; V 1]); OLoad (Add [Sha512 (V 0) (K 1); K 1])].
+Lemma ops_ex_in_fam : forall o, In o ops_ex -> In (op_loc Z o) fam_ex.
+Proof.
+  intros o Ho. unfold ops_ex in Ho. cbn [In] in Ho. unfold fam_ex.
+  repeat (destruct Ho as [<-|Ho]; [cbn [op_loc In]; tauto|]). destruct Ho.
+Qed.
+Lemma path_seq_example : forall I : aref -> Z -> Z,
+  (forall ax, In ax (p_path (list kt) Z (snd (sol_prun Z orc_ex reg_empty (p_empty (list kt) Z) ops_ex))) ->
+     holds (list kt) Z sol_kden evalZ I env1 ax) ->
+  map (evalp (list kt) Z sol_kden evalZ I env1) (fst (sol_prun Z orc_ex reg_empty (p_empty (list kt) Z) ops_ex)) = [7; 8; 7; 9].
+Proof.
+  intros I Hp. unfold sol_prun in *.
+  rewrite (path_seq_code (list kt) Z sol_kden evalZ orc_ex sol_key_is_value sol_load_emits_empty adm_ex
+             (or_introl eq_refl) orc_ex_eq orc_ex_neq Hkeccak (sol_decode reg_empty) env1 fam_ex ops_ex
+             eq_refl fam_ex_faithful ops_ex_in_fam I Hp).
+  vm_compute. reflexivity.
+Qed.
+
 (* ================================================================== narrow constant keys *)
 (* mapping(bytes => uint) m at slot 5: m[hex"0000"] computed concretely is the constant
    keccak(0x0000 . 5); its registered term f_sha3_272(const) is not decoded (no Concat left),
